@@ -1,7 +1,19 @@
-import Nv.Model.C11
+import Nv.Props.C11
 import Nv.Gen.C11
-/-! C11 — obligations on the definitions regenerated from /repo's current source. -/
+/-! C11 — obligations on the definitions regenerated from /repo's current source (tex/buffer.go). -/
 namespace Nv.C11
+open Spec
+
+/-- the shape of every method the model was transcribed from is still the one expected -/
 theorem tie_facts : Nv.Gen.C11.facts = Facts.expected := by decide
+
+/-- the regenerated configuration (rune comparison kind, slide guard, smallBufferSize, MinRead) is one the theorems cover -/
 theorem tie_cfg_proved : Proved Nv.Gen.C11.cfg := by decide
+
+/-- the refinement theorem, instantiated with the configuration read from today's source -/
+theorem tie_refines (ops : List Op) (hcom : ∀ op ∈ ops, Common Nv.Gen.C11.cfg op)
+    (hun : NoUnreadAfterGrow false ops) (hmem : MemOk Nv.Gen.C11.cfg St.zero ops) :
+    outs (implObs Nv.Gen.C11.cfg) St.zero ops = outs specObs SSt.empty ops :=
+  texbuf_refines _ tie_cfg_proved ops hcom hun hmem
+
 end Nv.C11
